@@ -109,27 +109,34 @@ Section GenericPD.
       + inv_ret H1. congruence.
   Qed.
 
-  Lemma ifilter_pd keep : forall n1 n2 L s1 s2 o s1' ev o2 s2' ev2,
-    ifilter nx1 n1 keep s1 = (o, s1', ev) -> o <> Out -> R (ev ++ L) s1 s2 ->
-    ifilter nx2 n2 keep s2 = (o2, s2', ev2) ->
-    o2 = Out \/ (o2 = o /\ ev2 = ev /\ R L s1' s2').
+  Lemma ifilter_pd keep fl : forall n1 n2 calls L s1 s2 o c1 s1' ev o2 c2 s2' ev2,
+    ifilter nx1 n1 keep fl calls s1 = (o, (c1, s1'), ev) -> o <> Out -> R (ev ++ L) s1 s2 ->
+    ifilter nx2 n2 keep fl calls s2 = (o2, (c2, s2'), ev2) ->
+    o2 = Out \/ (o2 = o /\ ev2 = ev /\ c2 = c1 /\ R L s1' s2').
   Proof.
-    induction n1 as [|n1 IH]; intros n2 L s1 s2 o s1' ev o2 s2' ev2 H1 Hno HR H2; simpl in H1.
+    induction n1 as [|n1 IH]; intros n2 calls L s1 s2 o c1 s1' ev o2 c2 s2' ev2 H1 Hno HR H2;
+      simpl in H1.
     - inv_ret H1. congruence.
     - destruct n2 as [|n2]; simpl in H2; [inv_ret H2; left; reflexivity|].
       destruct (nx1 s1) as [[a1 t1] e1] eqn:E1. destruct (nx2 s2) as [[a2 t2] e2] eqn:E2.
       destruct a1 as [x| | | |].
-      + destruct (pred_eval keep x) eqn:Ek.
+      + destruct (panics_now fl calls) eqn:Epn.
+        { inv_ret H1.
+          destruct (Hsim _ _ _ _ _ _ _ _ _ E1 ltac:(discriminate) HR E2)
+            as [Ho|(Ho & He & HR')]; [pd_out H2|].
+          subst a2 e2. inv_ret H2. right. repeat split; auto. }
+        destruct (pred_eval keep x) eqn:Ek.
         * inv_ret H1.
           destruct (Hsim _ _ _ _ _ _ _ _ _ E1 Hno HR E2) as [Ho|(Ho & He & HR')]; [pd_out H2|].
           subst a2 e2. rewrite Ek in H2. inv_ret H2. right. repeat split; auto.
-        * destruct (ifilter nx1 n1 keep t1) as [[o3 t3] e3] eqn:E3.
+        * destruct (ifilter nx1 n1 keep fl (S calls) t1) as [[o3 [c3 t3]] e3] eqn:E3.
           simpl in H1. inv_ret H1. rewrite <- app_assoc in HR.
           destruct (Hsim _ _ _ _ _ _ _ _ _ E1 ltac:(discriminate) HR E2)
             as [Ho|(Ho & He & HR')]; [pd_out H2|].
           subst a2 e2. rewrite Ek in H2.
-          destruct (ifilter nx2 n2 keep t2) as [[o4 t4] e4] eqn:E4. simpl in H2. inv_ret H2.
-          destruct (IH _ _ _ _ _ _ _ _ _ _ E3 Hno HR' E4) as [Ho|(Ho & He & HR'')];
+          destruct (ifilter nx2 n2 keep fl (S calls) t2) as [[o4 [c4 t4]] e4] eqn:E4.
+          simpl in H2. inv_ret H2.
+          destruct (IH _ _ _ _ _ _ _ _ _ _ _ _ _ E3 Hno HR' E4) as [Ho|(Ho & He & Hcc & HR'')];
             [left; exact Ho|].
           right. subst. repeat split; auto.
       + inv_ret H1.
@@ -157,33 +164,42 @@ Section GenericPD.
       right. subst. repeat split; auto.
   Qed.
 
-  Lemma imap_pd f : pd_sim R (imap nx1 f) (imap nx2 f).
+  Lemma imap_pd f fl calls L s1 s2 o c1 s1' ev o2 c2 s2' ev2 :
+    imap nx1 f fl calls s1 = (o, (c1, s1'), ev) -> o <> Out -> R (ev ++ L) s1 s2 ->
+    imap nx2 f fl calls s2 = (o2, (c2, s2'), ev2) ->
+    o2 = Out \/ (o2 = o /\ ev2 = ev /\ c2 = c1 /\ R L s1' s2').
   Proof.
-    intros L s1 s2 o s1' ev o2 s2' ev2 H1 Hno HR H2. unfold imap in *.
+    intros H1 Hno HR H2. unfold imap in *.
     destruct (nx1 s1) as [[a1 t1] e1] eqn:E1. destruct (nx2 s2) as [[a2 t2] e2] eqn:E2.
     assert (Ha1 : a1 <> Out) by (intros Hx; subst a1; inv_ret H1; congruence).
-    assert (He1 : ev = e1) by (destruct a1; inv_ret H1; reflexivity).
+    assert (He1 : ev = e1)
+      by (destruct a1; [destruct (panics_now fl calls)| | | |]; inv_ret H1; reflexivity).
     rewrite He1 in HR.
     destruct (Hsim _ _ _ _ _ _ _ _ _ E1 Ha1 HR E2) as [Ho|(Ho & He & HR')]; [pd_out H2|].
-    subst a2 e2. right. destruct a1; inv_ret H1; inv_ret H2; repeat split; auto.
+    subst a2 e2. right.
+    destruct a1; [destruct (panics_now fl calls)| | | |]; inv_ret H1; inv_ret H2;
+      repeat split; auto.
   Qed.
 
-  Lemma iwhile_pd f done L s1 s2 o d1 s1' ev o2 d2 s2' ev2 :
-    iwhile nx1 f done s1 = (o, (d1, s1'), ev) -> o <> Out -> R (ev ++ L) s1 s2 ->
-    iwhile nx2 f done s2 = (o2, (d2, s2'), ev2) ->
-    o2 = Out \/ (o2 = o /\ ev2 = ev /\ d2 = d1 /\ R L s1' s2').
+  Lemma iwhile_pd f fl calls done L s1 s2 o c1 d1 s1' ev o2 c2 d2 s2' ev2 :
+    iwhile nx1 f fl calls done s1 = (o, (c1, d1, s1'), ev) -> o <> Out -> R (ev ++ L) s1 s2 ->
+    iwhile nx2 f fl calls done s2 = (o2, (c2, d2, s2'), ev2) ->
+    o2 = Out \/ (o2 = o /\ ev2 = ev /\ c2 = c1 /\ d2 = d1 /\ R L s1' s2').
   Proof.
     unfold iwhile. intros H1 Hno HR H2. destruct done.
     - inv_ret H1. inv_ret H2. right. repeat split; auto.
     - destruct (nx1 s1) as [[a1 t1] e1] eqn:E1. destruct (nx2 s2) as [[a2 t2] e2] eqn:E2.
       assert (Ha1 : a1 <> Out) by (intros Hx; subst a1; inv_ret H1; congruence).
       assert (He1 : ev = e1)
-        by (destruct a1 as [y| | | |]; [destruct (pred_eval f y)| | | |]; inv_ret H1; reflexivity).
+        by (destruct a1 as [y| | | |];
+            [destruct (panics_now fl calls); [|destruct (pred_eval f y)]| | | |];
+            inv_ret H1; reflexivity).
       rewrite He1 in HR.
       destruct (Hsim _ _ _ _ _ _ _ _ _ E1 Ha1 HR E2) as [Ho|(Ho & He & HR')]; [pd_out H2|].
       subst a2 e2. right.
-      destruct a1 as [y| | | |]; [destruct (pred_eval f y)| | | |]; inv_ret H1; inv_ret H2;
-        repeat split; auto.
+      destruct a1 as [y| | | |];
+        [destruct (panics_now fl calls); [|destruct (pred_eval f y)]| | | |];
+        inv_ret H1; inv_ret H2; repeat split; auto.
   Qed.
 
   Definition Ropt (L : list sev) (c1 : option S1) (c2 : option S2) : Prop :=
@@ -638,7 +654,7 @@ Fixpoint irel (L : list sev) (s1 s2 : ist) {struct s1} : Prop :=
   | IPeek p, IPeek q =>
       pk_has q = pk_has p /\ pk_curr q = pk_curr p /\ irel L (pk_in p) (pk_in q)
   | ICompact r f pv p, ICompact r2 f2 pv2 q => r2 = r /\ f2 = f /\ pv2 = pv /\ irel L p q
-  | IFilter k p, IFilter k2 q => k2 = k /\ irel L p q
+  | IFilter k fl c p, IFilter k2 fl2 c2 q => k2 = k /\ fl2 = fl /\ c2 = c /\ irel L p q
   | IFirst x p, IFirst x2 q => x2 = x /\ irel L p q
   | IFlatten r c, IFlatten r2 c2 =>
       all2 (irel L) r r2 /\
@@ -648,8 +664,9 @@ Fixpoint irel (L : list sev) (s1 s2 : ist) {struct s1} : Prop :=
       | _, _ => False
       end
   | IJoin l, IJoin l2 => all2 (irel L) l l2
-  | IMap g p, IMap g2 q => g2 = g /\ irel L p q
-  | IWhile g d p, IWhile g2 d2 q => g2 = g /\ d2 = d /\ irel L p q
+  | IMap g fl c p, IMap g2 fl2 c2 q => g2 = g /\ fl2 = fl /\ c2 = c /\ irel L p q
+  | IWhile g fl c d p, IWhile g2 fl2 c2 d2 q =>
+      g2 = g /\ fl2 = fl /\ c2 = c /\ d2 = d /\ irel L p q
   | IFlattenSlices b q, IFlattenSlices b2 q2 => b2 = b /\ ilrel L q q2
   | _, _ => False
   end
@@ -702,14 +719,15 @@ Lemma irel_weak_both ev L :
 Proof.
   apply ist_size_ind. intros n IH1 IH2. split.
   - intros s1 Hs s2 H.
-    destruct s1 as [id a|p|r f pv p|k p|x p|rest curr|its|g p|g d p|b q];
-      destruct s2 as [id2 a2|p2|r2 f2 pv2 p2|k2 p2|x2 p2|rest2 curr2|its2|g2 p2|g2 d2 p2|b2 q2];
+    destruct s1 as [id a|p|r f pv p|k fl c p|x p|rest curr|its|g fl c p|g fl c d p|b q];
+      destruct s2 as [id2 a2|p2|r2 f2 pv2 p2|k2 fl2 c2 p2|x2 p2|rest2 curr2|its2|g2 fl2 c2 p2
+                     |g2 fl2 c2 d2 p2|b2 q2];
       simpl in H; try contradiction; simpl in Hs; simpl.
     + destruct H as [Hid Ha]. split; [exact Hid|].
       eapply agree_upto_le; [|exact Ha]. apply count_next_app_le.
     + destruct H as (H1 & H2 & H3). repeat split; auto; try (apply IH1; [lia|exact H3]).
     + destruct H as (H1 & H2 & H3 & H4). repeat split; auto; try (apply IH1; [lia|exact H4]).
-    + destruct H as (H1 & H2). split; auto; try (apply IH1; [lia|exact H2]).
+    + destruct H as (H1 & H2 & H3 & H4). repeat split; auto; try (apply IH1; [lia|exact H4]).
     + destruct H as (H1 & H2). split; auto; try (apply IH1; [lia|exact H2]).
     + destruct H as (H1 & H2). split.
       * eapply all2_impl_in; [|exact H1]. intros x y Hx Hxy. apply IH1; [|exact Hxy].
@@ -717,8 +735,8 @@ Proof.
       * destruct curr as [a|]; destruct curr2 as [b|]; auto. apply IH1; [lia|exact H2].
     + eapply all2_impl_in; [|exact H]. intros x y Hx Hxy. apply IH1; [|exact Hxy].
       pose proof (lsm_in (fun c => S (isize c)) its x Hx). simpl in *. lia.
-    + destruct H as (H1 & H2). split; auto; try (apply IH1; [lia|exact H2]).
-    + destruct H as (H1 & H2 & H3). repeat split; auto; try (apply IH1; [lia|exact H3]).
+    + destruct H as (H1 & H2 & H3 & H4). repeat split; auto; try (apply IH1; [lia|exact H4]).
+    + destruct H as (H1 & H2 & H3 & H4 & H5). repeat split; auto; try (apply IH1; [lia|exact H5]).
     + destruct H as (H1 & H2). split; auto; try (apply IH2; [lia|exact H2]).
   - intros q1 Hq q2 H.
     destruct q1 as [sz p|r k c p]; destruct q2 as [sz2 p2|r2 k2 c2 p2];
@@ -739,12 +757,12 @@ Qed.
 Lemma irel_refl_both L : (forall s, irel L s s) /\ (forall q, ilrel L q q).
 Proof.
   apply ist_size_ind. intros n IH1 IH2. split.
-  - intros s Hs. destruct s as [id a|p|r f pv p|k p|x p|rest curr|its|g p|g d p|b q];
+  - intros s Hs. destruct s as [id a|p|r f pv p|k fl c p|x p|rest curr|its|g fl c p|g fl c d p|b q];
       simpl in Hs; simpl.
     + split; [reflexivity|apply agree_upto_refl].
     + split; [reflexivity|]. split; [reflexivity|]. apply IH1. lia.
     + split; [reflexivity|]. split; [reflexivity|]. split; [reflexivity|]. apply IH1. lia.
-    + split; [reflexivity|]. apply IH1. lia.
+    + repeat (split; [reflexivity|]). apply IH1. lia.
     + split; [reflexivity|]. apply IH1. lia.
     + split.
       * apply all2_refl_in. intros x Hx. apply IH1.
@@ -752,8 +770,8 @@ Proof.
       * destruct curr as [c|]; [apply IH1; lia|exact I].
     + apply all2_refl_in. intros x Hx. apply IH1.
       pose proof (lsm_in (fun c => S (isize c)) its x Hx). simpl in *. lia.
-    + split; [reflexivity|]. apply IH1. lia.
-    + split; [reflexivity|]. split; [reflexivity|]. apply IH1. lia.
+    + repeat (split; [reflexivity|]). apply IH1. lia.
+    + repeat (split; [reflexivity|]). apply IH1. lia.
     + split; [reflexivity|]. apply IH2. lia.
   - intros q Hq. destruct q as [sz p|r k c p]; simpl in Hq; simpl.
     + split; [reflexivity|]. apply IH1. lia.
@@ -775,9 +793,9 @@ Proof.
     destruct (IH g) as [IHz IHl].
     assert (Hw : forall ev L s1 s2, irel (ev ++ L) s1 s2 -> irel L s1 s2) by exact irel_weak.
     split; intros L s1 s2 o s1' ev o2 s2' ev2 H1 Hno HR H2.
-    + destruct s1 as [id a|p|r fi pv p|k p|x p|rest curr|its|fn p|fn d p|b q];
-        destruct s2 as [id2 a2|p2|r2 fi2 pv2 p2|k2 p2|x2 p2|rest2 curr2|its2|fn2 p2|fn2 d2 p2
-                       |b2 q2];
+    + destruct s1 as [id a|p|r fi pv p|k fl c p|x p|rest curr|its|fn fl c p|fn fl c d p|b q];
+        destruct s2 as [id2 a2|p2|r2 fi2 pv2 p2|k2 fl2 c2 p2|x2 p2|rest2 curr2|its2|fn2 fl2 c2 p2
+                       |fn2 fl2 c2 d2 p2|b2 q2];
         cbn [irel ilrel] in HR; try contradiction; cbn [inext] in H1, H2.
       * (* source *)
         destruct HR as [Hid Ha]. subst id2.
@@ -798,12 +816,12 @@ Proof.
         destruct (icompact_pd _ _ _ IHz _ _ _ _ _ _ _ _ _ _ _ _ _ _ _ _ _ _ E1 Hno HR E2)
           as [Ho|(Ho & He & Hf & Hp & HR')]; [left; exact Ho|right]. subst. repeat split; auto.
       * (* filter *)
-        destruct HR as (Hk & HR). subst k2.
-        destruct (ifilter (inext f) (S f) k p) as [[a1 q1] e1] eqn:E1.
-        destruct (ifilter (inext g) (S g) k p2) as [[a2 q2] e2] eqn:E2.
+        destruct HR as (Hk & Hfl & Hcc & HR). subst k2 fl2 c2.
+        destruct (ifilter (inext f) (S f) k fl c p) as [[a1 [c3 q1]] e1] eqn:E1.
+        destruct (ifilter (inext g) (S g) k fl c p2) as [[a2 [c4 q2]] e2] eqn:E2.
         inv_ret H1. inv_ret H2.
-        destruct (ifilter_pd _ _ _ IHz _ _ _ _ _ _ _ _ _ _ _ _ E1 Hno HR E2)
-          as [Ho|(Ho & He & HR')]; [left; exact Ho|right]. subst. repeat split; auto.
+        destruct (ifilter_pd _ _ _ IHz _ _ _ _ _ _ _ _ _ _ _ _ _ _ _ _ E1 Hno HR E2)
+          as [Ho|(Ho & He & Hc & HR')]; [left; exact Ho|right]. subst. repeat split; auto.
       * (* first *)
         destruct HR as (Hx & HR). subst x2.
         destruct (ifirst (inext f) x p) as [[a1 [x3 q1]] e1] eqn:E1.
@@ -828,19 +846,19 @@ Proof.
           as [Ho|(Ho & He & HF')]; [left; exact Ho|right]. subst.
         repeat split; auto. apply all2_Forall2. exact HF'.
       * (* map *)
-        destruct HR as (Hk & HR). subst fn2.
-        destruct (imap (inext f) fn p) as [[a1 q1] e1] eqn:E1.
-        destruct (imap (inext g) fn p2) as [[a2 q2] e2] eqn:E2.
+        destruct HR as (Hk & Hfl & Hcc & HR). subst fn2 fl2 c2.
+        destruct (imap (inext f) fn fl c p) as [[a1 [c3 q1]] e1] eqn:E1.
+        destruct (imap (inext g) fn fl c p2) as [[a2 [c4 q2]] e2] eqn:E2.
         inv_ret H1. inv_ret H2.
-        destruct (imap_pd _ _ _ IHz _ _ _ _ _ _ _ _ _ _ E1 Hno HR E2)
-          as [Ho|(Ho & He & HR')]; [left; exact Ho|right]. subst. repeat split; auto.
+        destruct (imap_pd _ _ _ IHz _ _ _ _ _ _ _ _ _ _ _ _ _ _ E1 Hno HR E2)
+          as [Ho|(Ho & He & Hc & HR')]; [left; exact Ho|right]. subst. repeat split; auto.
       * (* while *)
-        destruct HR as (Hk & Hd & HR). subst fn2 d2.
-        destruct (iwhile (inext f) fn d p) as [[a1 [d3 q1]] e1] eqn:E1.
-        destruct (iwhile (inext g) fn d p2) as [[a2 [d4 q2]] e2] eqn:E2.
+        destruct HR as (Hk & Hfl & Hcc & Hd & HR). subst fn2 fl2 c2 d2.
+        destruct (iwhile (inext f) fn fl c d p) as [[a1 [[c3 d3] q1]] e1] eqn:E1.
+        destruct (iwhile (inext g) fn fl c d p2) as [[a2 [[c4 d4] q2]] e2] eqn:E2.
         inv_ret H1. inv_ret H2.
-        destruct (iwhile_pd _ _ _ IHz _ _ _ _ _ _ _ _ _ _ _ _ _ E1 Hno HR E2)
-          as [Ho|(Ho & He & Hd & HR')]; [left; exact Ho|right]. subst. repeat split; auto.
+        destruct (iwhile_pd _ _ _ IHz _ _ _ _ _ _ _ _ _ _ _ _ _ _ _ _ _ E1 Hno HR E2)
+          as [Ho|(Ho & He & Hc & Hd & HR')]; [left; exact Ho|right]. subst. repeat split; auto.
       * (* flatten slices *)
         destruct HR as (Hb & HR). subst b2.
         destruct (iflatslices (ilnext f) (S f) b q) as [[a1 [b3 q1]] e1] eqn:E1.
@@ -1000,14 +1018,14 @@ Proof.
   - intros id s [id2 s2| | | | | | | | |]; simpl; auto.
   - intros p IH [|q| | | | | | | |]; simpl; auto.
   - intros r p IH [| |r2 q| | | | | | |]; simpl; auto. intros [H1 H2]. auto.
-  - intros f fl p IH [| | |f2 fl2 q| | | | | |]; simpl; auto. intros (H1 & H2 & H3). auto.
+  - intros f fl p IH [| | |f2 fl2 q| | | | | |]; simpl; auto. intros (H1 & H2 & H3). repeat split; auto.
   - intros n p IH [| | | |n2 q| | | | |]; simpl; auto. intros [H1 H2]. auto.
   - intros ps IH [| | | | |qs| | | |]; simpl; auto. intros H. split; [|exact I].
     eapply all2_map; [|exact H]. exact IH.
   - intros ps IH [| | | | | |qs| | |]; simpl; auto. intros H.
     eapply all2_map; [|exact H]. exact IH.
-  - intros f fl p IH [| | | | | | |f2 fl2 q| |]; simpl; auto. intros (H1 & H2 & H3). auto.
-  - intros f fl p IH [| | | | | | | |f2 fl2 q|]; simpl; auto. intros (H1 & H2 & H3). auto.
+  - intros f fl p IH [| | | | | | |f2 fl2 q| |]; simpl; auto. intros (H1 & H2 & H3). repeat split; auto.
+  - intros f fl p IH [| | | | | | | |f2 fl2 q|]; simpl; auto. intros (H1 & H2 & H3). repeat split; auto.
   - intros q IH [| | | | | | | | |q2]; simpl; auto.
   - intros n p IH [n2 q|]; simpl; auto. intros [H1 H2]. auto.
   - intros r k p IH [|r2 k2 q]; simpl; auto. intros (H1 & H2 & H3). repeat split; auto.
